@@ -247,7 +247,8 @@ func vfRunIcpt(t *testing.T, sc *vfNackScript, out *vfWriter) {
 			out.Emit(vfM{"a": "bind", "s": st.S, "nack": st.Nack})
 		case "unbind":
 			if b := streams[st.S]; b != nil {
-				ic.UnbindRemoteStream(b.info)
+				unb := *b.info // an equal description at another address
+				ic.UnbindRemoteStream(&unb)
 				delete(streams, st.S)
 				stale[st.S] = b
 			}
